@@ -5,10 +5,10 @@ CFG = dict(
               "every frame decodes with the peer-side codec"],
     assumptions=["check points are quiescent (all change events delivered, pending flushed, socket drained)",
                  "source peers are driven through TableManager calls in the order the daemon's session/timer code uses",
-                 "sequential histories here; concurrent source threads are covered by C18/C20 workloads"],
+                 "a quarter of the histories issue the RIB-side operations from up to three OS threads with delay injection while the observer delivers/flushes; schedules are sampled, not enumerated"],
     floor=dict(evaluations=100, nontrivial=20,
                counters={"checks": 100, "frames-decoded": 500, "events-delivered": 500, "routes-compared": 300,
-                         "op:announce": 500, "op:withdraw": 300, "branch:addpath": 20, "branch:plain": 20}),
+                         "op:announce": 500, "op:withdraw": 300, "branch:addpath": 20, "branch:plain": 20, "histories-concurrent": 30, "concurrent-bursts": 100, "sched-point-hits": 500}),
     quick=[e2("hist", "event::verif::c01::run", 4, 30)],
     thorough=[e2("hist", "event::verif::c01::run", 16, 200)],
 )
